@@ -5,6 +5,7 @@
 //! `harness prop  < cases`  — evaluates the property itself on the implementation.
 mod codec;
 mod dump;
+mod events;
 mod frame;
 mod hitobj;
 mod sections;
@@ -54,6 +55,7 @@ fn dispatch_impl(toks: &[&str]) -> String {
         .or_else(|| sections::dispatch_impl(toks))
         .or_else(|| hitobj::dispatch_impl(toks))
         .or_else(|| whole::dispatch_impl(toks))
+        .or_else(|| events::dispatch_impl(toks))
         .unwrap_or_else(|| "bad-request".to_owned())
 }
 
@@ -63,5 +65,6 @@ fn dispatch_prop(toks: &[&str]) -> String {
         .or_else(|| sections::dispatch_prop(toks))
         .or_else(|| hitobj::dispatch_prop(toks))
         .or_else(|| whole::dispatch_prop(toks))
+        .or_else(|| events::dispatch_prop(toks))
         .unwrap_or_else(|| "SKIP no-oracle".to_owned())
 }
